@@ -34,6 +34,8 @@ THEOREMS = [
     "MCHap.C18.swap_ratio_joint",
     "MCHap.C18.ped_swap_db",
     "MCHap.C18.swap_self_perm",
+    "MCHap.C18.jointWith_perm",
+    "MCHap.C18.swap_self_joint",
     "MCHap.C18.hyper_allele_step",
     "MCHap.C18.unknown_allele_step",
     "MCHap.C18.kappa_of_fixed_weights",
